@@ -17,8 +17,15 @@
          replacement step on recorded states: check_step (cones agree on the compared leaf
          vectors) and check_subst (plus frame conditions): an accepted step preserves the value
          of every surviving gate, in particular of every circuit output.
+     (4) a verified validator for WHOLE recorded runs (Model/SubcircuitRun.check_run,
+         C04_validated_run): the argument circuit, the recorded events in order (replacement
+         steps and trivial-branch merges, each with its state before and after) and the returned
+         circuit; if the states chain from the argument to the result and every event is
+         accepted by its validator, the returned circuit has the same inputs, as many outputs
+         and the same truth table as the argument.
    Every call of Circuit.replace_subcircuit made by minimize_subcircuits during the check is
-   replayed through the model and validated with check_subst (harness/patcorr.py).
+   replayed through the model and validated with check_subst, and every run that returns is
+   validated end to end with check_run (harness/patcorr.py).
 
    Vocabulary
      ConeEval c rho l b     Boolean value b of gate l when the labels bound in rho (the cut
@@ -32,14 +39,15 @@
                             (a new gate can get the label, type and operands of a removed one) *)
 Require Import Cirbo.Model.Base Cirbo.Model.Gate Cirbo.Model.Den Cirbo.Model.Circuit
         Cirbo.Model.Eval Cirbo.Model.Sem Cirbo.Model.ConeSem Cirbo.Model.PatternSim
-        Cirbo.Model.SubcircuitValidator Cirbo.Model.Connect Cirbo.Model.WF.
+        Cirbo.Model.SubcircuitValidator Cirbo.Model.Connect Cirbo.Model.WF
+        Cirbo.Model.PatCases Cirbo.Model.SubcircuitRun.
 Require Import Cirbo.Generated.GateTypes Cirbo.Generated.PatternOps.
 Require Import Cirbo.Proofs.EvalFacts Cirbo.Proofs.PatternBits Cirbo.Proofs.PatternFacts
         Cirbo.Proofs.InputsTT Cirbo.Proofs.ConeSim Cirbo.Proofs.ConeFacts
         Cirbo.Proofs.ValidatorFacts Cirbo.Proofs.MergeFacts Cirbo.Proofs.CareFacts Cirbo.Proofs.SolverTable
         Cirbo.Proofs.C04Examples.
 Require Import Cirbo.Proofs.WFEmplace Cirbo.Proofs.WFStep Cirbo.Proofs.EvalEntry Cirbo.Proofs.TruthTable
-        Cirbo.Proofs.SemReplaceSub Cirbo.Proofs.C04Replace.
+        Cirbo.Proofs.SemReplaceSub Cirbo.Proofs.C04Replace Cirbo.Proofs.C04Run Cirbo.Proofs.C04RunExample.
 
 (* ---- (1) pattern operations, every width ---- *)
 Theorem C04_max_pattern : forall n, max_pattern n = (2 ^ (2 ^ n) - 1)%N.
@@ -306,6 +314,102 @@ Theorem C04_care_covers_sound : forall c leaves care,
   exists a v, zip_inputs (inputs c) (map inj x) [] = Ok a /\ In v care /\
               Forall2 (fun l b => Eval c a l (inj b)) leaves v.
 Proof. exact care_covers_sound. Qed.
+
+(* ---- (4) whole runs: the steps chain from the argument circuit to the returned circuit ----
+   A recorded run of minimize_subcircuits is the argument circuit c0 (dumped at the entry), the
+   list of events in the order they happened and the returned circuit cn.  An event is
+   EvReplace (before, after, leaves, outs, care) - a call of Circuit.replace_subcircuit that took
+   effect - or EvMerge (before, after, leaves, o, l, care) - an output equal to a cut leaf merged
+   into that leaf - with exactly the data of PatCases.val_case / merge_case.
+   check_run c0 evs cn (Model/SubcircuitRun.v) is true iff
+     - the first event's before-state is c0, the after-state of every event is the before-state
+       of the next one, the last after-state is cn (no events: cn is c0); states are compared
+       with History.circuit_eqb, which reflects equality of the circuit records (inputs,
+       outputs, gates with their order, users index, blocks);
+     - every event is accepted by its validator: check_val_case (check_subst + care_covers),
+       check_merge_case (check_merge + care_covers);
+     - in the before-state of every event the listed inputs are INPUT gates, and for an event
+       compared on all 2^k leaf vectors (care = None) every leaf evaluates to a Boolean under
+       every Boolean input vector (leaves_boolean).  The step validators do not establish this
+       for the next state, so it is checked, not assumed;
+     - wfb cn and run_arity_okb cn: the returned circuit is well formed with accepted operand
+       counts (check_subst / check_merge do not look at the users index or the blocks).
+   C04_check_run_structure spells this reading out. *)
+Theorem C04_check_run_structure : forall c0 evs cn,
+  check_run c0 evs cn = true ->
+  Forall (fun e => check_event e = true) evs /\
+  match evs with
+  | [] => cn = c0
+  | e :: _ => ev_before e = c0 /\ ev_after (last evs e) = cn
+  end /\
+  (forall i e e', nth_error evs i = Some e -> nth_error evs (S i) = Some e' -> ev_before e' = ev_after e) /\
+  wfb cn = true /\ run_arity_okb cn = true.
+Proof. exact check_run_structure. Qed.
+
+(* THE END-TO-END THEOREM.  If check_run accepts the recorded run and the argument circuit is
+   well formed (WF, the invariant of C02) with accepted operand counts, then the returned
+   circuit has the inputs of the argument and as many outputs, and for every Boolean input
+   vector x: the i-th output of cn has (in the relational semantics Eval) every value the i-th
+   output of c0 has; the output vectors coincide; evaluate returns the same vector for both;
+   and both truth tables exist and are equal.
+   Hypotheses: WF c0 and arity_ok c0 are used only to pass from Eval to the evaluators
+   (EvalEntry.evaluate_complete needs them: without arity_ok an operator raises, without WF the
+   positional assignment of evaluate is not the one of Eval) and for the converse direction of
+   the <->; the position-wise statement needs neither (C04_validated_run_semantics). *)
+Theorem C04_validated_run : forall c0 evs cn,
+  WF c0 -> arity_ok c0 ->
+  check_run c0 evs cn = true ->
+  inputs cn = inputs c0 /\ length (outputs cn) = length (outputs c0) /\
+  (forall x, length x = length (inputs c0) ->
+     (forall i o v, nth_error (outputs c0) i = Some o -> Eval c0 (bool_assignment c0 x) o v ->
+        exists o', nth_error (outputs cn) i = Some o' /\ Eval cn (bool_assignment cn x) o' v) /\
+     (forall vs, Forall2 (Eval cn (bool_assignment cn x)) (outputs cn) vs <->
+                 Forall2 (Eval c0 (bool_assignment c0 x)) (outputs c0) vs) /\
+     exists vs, evaluate c0 (map inj x) = Ok vs /\ evaluate cn (map inj x) = Ok vs) /\
+  exists tt, get_truth_table c0 = Ok tt /\ get_truth_table cn = Ok tt.
+Proof. exact validated_run. Qed.
+
+(* without any hypothesis on c0: a is the assignment evaluate builds from the vector x *)
+Theorem C04_validated_run_semantics : forall c0 evs cn,
+  check_run c0 evs cn = true ->
+  inputs cn = inputs c0 /\ length (outputs cn) = length (outputs c0) /\
+  WF cn /\ arity_ok cn /\
+  forall x a, length x = length (inputs c0) -> zip_inputs (inputs c0) (map inj x) [] = Ok a ->
+  forall i o v, nth_error (outputs c0) i = Some o -> Eval c0 a o v ->
+    exists o', nth_error (outputs cn) i = Some o' /\ Eval cn a o' v.
+Proof. exact validated_run_sem. Qed.
+
+(* what the harness evaluates (PatCases-style case: check_run_case = check_run_closed): the
+   hypotheses about c0 are checked too, so the conclusion holds with no hypothesis left *)
+Theorem C04_validated_run_closed : forall c0 evs cn,
+  check_run_closed c0 evs cn = true ->
+  WF c0 /\ arity_ok c0 /\ WF cn /\ arity_ok cn /\
+  inputs cn = inputs c0 /\ length (outputs cn) = length (outputs c0) /\
+  (forall x, length x = length (inputs c0) ->
+     exists vs, evaluate c0 (map inj x) = Ok vs /\ evaluate cn (map inj x) = Ok vs) /\
+  exists tt, get_truth_table c0 = Ok tt /\ get_truth_table cn = Ok tt.
+Proof. exact validated_run_closed. Qed.
+
+(* non-vacuity: a recorded run with two events (a merge, then a replacement) *)
+Example C04_example_validated_run :
+  WF c04_run_c0 /\ arity_ok c04_run_c0 /\
+  length c04_run_events = 2 /\
+  check_run c04_run_c0 c04_run_events c04_run_c2 = true /\
+  check_run_closed c04_run_c0 c04_run_events c04_run_c2 = true /\
+  get_truth_table c04_run_c0 = Ok [[T; F; F; T]; [F; T; F; T]] /\
+  get_truth_table c04_run_c2 = Ok [[T; F; F; T]; [F; T; F; T]].
+Proof. exact c04_run_accepted. Qed.
+
+(* the chain conditions bite: a missing event, an edit after the last event (outputs swapped),
+   a wrong order are rejected although every single event is accepted by its validator *)
+Example C04_example_run_rejected :
+  check_run c04_run_c0 [c04_run_replace] c04_run_c2 = false /\
+  check_run c04_run_c0 [c04_run_merge] c04_run_c2 = false /\
+  check_run c04_run_c0 c04_run_events c04_run_c2_edited = false /\
+  check_run c04_run_c0 [c04_run_replace; c04_run_merge] c04_run_c2 = false /\
+  check_run c04_run_c0 [] c04_run_c2 = false /\ check_run c04_run_c0 [] c04_run_c0 = true /\
+  check_event c04_run_merge = true /\ check_event c04_run_replace = true.
+Proof. exact c04_run_rejected. Qed.
 
 (* ---- the added hypotheses are necessary (witnesses) ---- *)
 (* operand count: eval_pattern ignores a surplus operand of a comparison gate (den = None:
